@@ -54,7 +54,12 @@ func (zp *ZoneParser) generate(l lex) (RR, bool) {
 	}
 
 	// _BLANK
+	rangeLex := l
 	l, ok = zp.c.Next()
+	if !ok {
+		// The input ends here: report the position of the range, not of the zero lex.
+		return zp.setParseError("garbage after $GENERATE range", rangeLex)
+	}
 	if !ok || l.value != zBlank {
 		return zp.setParseError("garbage after $GENERATE range", l)
 	}
